@@ -292,7 +292,7 @@ Lemma create_signature_step_ok st aad f m :
                  m = mkSign1 (s1_prot st) (s1_unprot st) (s1_payload st) sg.
 Proof.
   rewrite create_signature_step, try_create_signature_step. intros [H|H]; bind_inv H; bind_inv H;
-    injection H as <-; eauto using call1_ok.
+    injection H as <-; (do 2 eexists; split; [reflexivity|]; split; [apply call1_ok; eassumption|reflexivity]).
 Qed.
 
 Corollary sign1_builder_sign_then_verify :
@@ -306,8 +306,8 @@ Corollary sign1_builder_sign_then_verify :
 Proof.
   intros st aad signer m v m' R verifier Hstep He W Hd.
   apply create_signature_step_ok in Hstep as (tbs & sg & Ht & Hs & ->).
-  exists tbs, sg. repeat split; auto.
-  eapply (sign1_sign_then_verify st aad signer tbs sg); eauto.
+  exists tbs, sg. split; [exact Ht|]. split; [exact Hs|]. split; [reflexivity|].
+  exact (sign1_sign_then_verify st aad signer tbs sg (mkSign1 (s1_prot st) (s1_unprot st) (s1_payload st) sg) v m' R verifier Ht Hs eq_refl eq_refl eq_refl He W Hd).
 Qed.
 
 (* ---------- COSE_Mac0 ---------- *)
@@ -475,3 +475,599 @@ Lemma encrypt0_failing_creator_yields_no_message : forall st pt aad f a,
   enc_structure_data EncCoseEncrypt0 (e0_prot st) aad = Ok a -> f pt a = None ->
   encrypt0_builder_step st (E0_try_create_ciphertext pt aad f) = Err EEncode.
 Proof. intros st pt aad f a H N. rewrite encrypt0_try_create_ciphertext_step, H. cbn [bind]. now rewrite (call2_none _ _ _ N). Qed.
+
+(* ====================================================================== *)
+(* 2. Messages with nested recipients / signatures                        *)
+(* ====================================================================== *)
+
+(* ---------- COSE_Mac ---------- *)
+Lemma mac_encode_shape m v : CoseMac_to_value m = Ok v ->
+  exists p u rs, protected_cbor_bstr (mc_prot m) = Ok p /\
+              v = VArray [p; u; opt_bytes_value (mc_payload m); VBytes (mc_tag m); VArray rs].
+Proof. unfold CoseMac_to_value. intros H. bind_inv H. bind_inv H. bind_inv H. injection H as <-. eauto. Qed.
+
+Lemma mac_decode_shape p u plv tgv rsv m' :
+  CoseMac_from_value (VArray [p; u; plv; tgv; rsv]) = Ok m' ->
+  protected_cbor_bstr (mc_prot m') = Ok p /\ bytes_or_nil plv = Ok (mc_payload m') /\ try_as_bytes tgv = Ok (mc_tag m').
+Proof.
+  unfold CoseMac_from_value. cbn [try_as_array bind length]. rewrite arity_mac. cbn [Nat.eqb negb].
+  intros H. bind_inv H. bind_inv H. bind_inv H. bind_inv H. bind_inv H. injection H as <-.
+  cbn [mc_prot mc_payload mc_tag]. repeat split. eapply protected_retained; eassumption.
+Qed.
+
+Lemma mac_roundtrip_fields m v m' :
+  CoseMac_to_value m = Ok v -> CoseMac_from_value v = Ok m' ->
+  protected_cbor_bstr (mc_prot m') = protected_cbor_bstr (mc_prot m) /\
+  mc_payload m' = mc_payload m /\ mc_tag m' = mc_tag m.
+Proof.
+  intros He Hd. destruct (mac_encode_shape _ _ He) as (p & u & rs & Hp & ->).
+  apply mac_decode_shape in Hd as (Hp' & Hpl & Htg).
+  rewrite bytes_or_nil_opt in Hpl. cbn [try_as_bytes] in Htg.
+  repeat split; congruence.
+Qed.
+
+Theorem mac_create_then_verify :
+  forall (st : mac) (aad : bytes) (tagger : closure1) (tbm tg : bytes) (m : mac) (v : value) (m' : mac)
+         (R : Type) (verify : bytes -> bytes -> R),
+    Mac_tbm st aad = Ok tbm -> tagger tbm = Some tg ->
+    mc_prot m = mc_prot st -> mc_payload m = mc_payload st -> mc_tag m = tg ->
+    CoseMac_to_value m = Ok v -> wire_ok v ->
+    CoseMac_from_value v = Ok m' ->
+    Mac_verify_tag m' aad verify = Ok (verify tg tbm).
+Proof.
+  intros st aad tagger tbm tg m v m' R verify Htbm _ Hp Hpl Htg He _ Hd.
+  destruct (mac_roundtrip_fields _ _ _ He Hd) as (Ep & Epl & Etg).
+  unfold Mac_verify_tag.
+  assert (X : Mac_tbm m' aad = Ok tbm).
+  { rewrite <- Htbm. unfold Mac_tbm. rewrite Epl, Hpl. destruct (mc_payload st); [|reflexivity].
+    apply mac_structure_data_ext. rewrite Ep, Hp. reflexivity. }
+  rewrite X. cbn [bind]. rewrite Etg, Htg. reflexivity.
+Qed.
+
+Corollary mac_roundtrip_bytes :
+  forall (st : mac) (aad : bytes) (tagger : closure1) (tbm tg : bytes) (m : mac) (v : value) (b : bytes)
+         (m' : mac) (R : Type) (verify : bytes -> bytes -> R),
+    Mac_tbm st aad = Ok tbm -> tagger tbm = Some tg ->
+    mc_prot m = mc_prot st -> mc_payload m = mc_payload st -> mc_tag m = tg ->
+    CoseMac_to_value m = Ok v -> wire_ok v ->
+    to_vec CoseMac_to_value m = Ok b -> from_slice CoseMac_from_value b = Ok m' ->
+    Mac_verify_tag m' aad verify = Ok (verify tg tbm).
+Proof.
+  intros st aad tagger tbm tg m v b m' R verify Htbm Hs Hp Hpl Htg He W Hb Hd.
+  eapply mac_create_then_verify; eauto. eapply roundtrip_untagged; eauto.
+Qed.
+Corollary mac_roundtrip_tagged_bytes :
+  forall (st : mac) (aad : bytes) (tagger : closure1) (tbm tg : bytes) (m : mac) (v : value) (b : bytes)
+         (m' : mac) (R : Type) (verify : bytes -> bytes -> R),
+    Mac_tbm st aad = Ok tbm -> tagger tbm = Some tg ->
+    mc_prot m = mc_prot st -> mc_payload m = mc_payload st -> mc_tag m = tg ->
+    CoseMac_to_value m = Ok v -> wire_ok v ->
+    to_tagged_vec CoseMac_to_value (tag_of "CoseMac") m = Ok b ->
+    from_tagged_slice CoseMac_from_value (tag_of "CoseMac") b = Ok m' ->
+    Mac_verify_tag m' aad verify = Ok (verify tg tbm).
+Proof.
+  intros st aad tagger tbm tg m v b m' R verify Htbm Hs Hp Hpl Htg He W Hb Hd.
+  eapply mac_create_then_verify; eauto.
+  destruct (tag_generic "CoseMac") as (A & B & C); [cbn [In]; tauto|].
+  eapply roundtrip_tagged; eauto.
+Qed.
+
+Lemma mac_create_tag_step : forall st aad f,
+  mac_builder_step st (MC_create_tag aad f) =
+  (do tbm <- Mac_tbm st aad; do tg <- call1 f tbm;
+   Ok (mkMac (mc_prot st) (mc_unprot st) (mc_payload st) tg (mc_recipients st))).
+Proof. reflexivity. Qed.
+Lemma mac_try_create_tag_step : forall st aad f,
+  mac_builder_step st (MC_try_create_tag aad f) =
+  (do tbm <- Mac_tbm st aad; do tg <- call1 f tbm;
+   Ok (mkMac (mc_prot st) (mc_unprot st) (mc_payload st) tg (mc_recipients st))).
+Proof. reflexivity. Qed.
+Lemma mac_failing_creator_yields_no_message : forall st aad f tbm,
+  Mac_tbm st aad = Ok tbm -> f tbm = None -> mac_builder_step st (MC_try_create_tag aad f) = Err EEncode.
+Proof. intros st aad f tbm H N. rewrite mac_try_create_tag_step, H. cbn [bind]. now rewrite (call1_none _ _ N). Qed.
+
+(* ---------- COSE_Encrypt ---------- *)
+Lemma encrypt_encode_shape m v : CoseEncrypt_to_value m = Ok v ->
+  exists p u rs, protected_cbor_bstr (en_prot m) = Ok p /\ v = VArray [p; u; opt_bytes_value (en_ct m); VArray rs].
+Proof. unfold CoseEncrypt_to_value. intros H. bind_inv H. bind_inv H. bind_inv H. injection H as <-. eauto. Qed.
+
+Lemma encrypt_decode_shape p u ctv rsv m' :
+  CoseEncrypt_from_value (VArray [p; u; ctv; rsv]) = Ok m' ->
+  protected_cbor_bstr (en_prot m') = Ok p /\ bytes_or_nil ctv = Ok (en_ct m').
+Proof.
+  unfold CoseEncrypt_from_value. cbn [try_as_array bind length]. rewrite arity_encrypt. cbn [Nat.eqb negb].
+  intros H. bind_inv H. bind_inv H. bind_inv H. bind_inv H. injection H as <-.
+  cbn [en_prot en_ct]. repeat split. eapply protected_retained; eassumption.
+Qed.
+
+Lemma encrypt_roundtrip_fields m v m' :
+  CoseEncrypt_to_value m = Ok v -> CoseEncrypt_from_value v = Ok m' ->
+  protected_cbor_bstr (en_prot m') = protected_cbor_bstr (en_prot m) /\ en_ct m' = en_ct m.
+Proof.
+  intros He Hd. destruct (encrypt_encode_shape _ _ He) as (p & u & rs & Hp & ->).
+  apply encrypt_decode_shape in Hd as (Hp' & Hct).
+  rewrite bytes_or_nil_opt in Hct. repeat split; congruence.
+Qed.
+
+Theorem encrypt_create_then_decrypt :
+  forall (st : encrypt) (pt aad : bytes) (enc : closure2) (a ct : bytes) (m : encrypt) (v : value) (m' : encrypt)
+         (R : Type) (cipher : bytes -> bytes -> R),
+    enc_structure_data EncCoseEncrypt (en_prot st) aad = Ok a -> enc pt a = Some ct ->
+    en_prot m = en_prot st -> en_ct m = Some ct ->
+    CoseEncrypt_to_value m = Ok v -> wire_ok v ->
+    CoseEncrypt_from_value v = Ok m' ->
+    Encrypt_decrypt m' aad cipher = Ok (cipher ct a).
+Proof.
+  intros st pt aad enc a ct m v m' R cipher Ha _ Hp Hct He _ Hd.
+  destruct (encrypt_roundtrip_fields _ _ _ He Hd) as (Ep & Ect).
+  unfold Encrypt_decrypt. rewrite Ect, Hct.
+  rewrite (enc_structure_data_ext _ (en_prot m') (en_prot st)) by (rewrite Ep, Hp; reflexivity).
+  rewrite Ha. reflexivity.
+Qed.
+
+Corollary encrypt_roundtrip_bytes :
+  forall (st : encrypt) (pt aad : bytes) (enc : closure2) (a ct : bytes) (m : encrypt) (v : value) (b : bytes)
+         (m' : encrypt) (R : Type) (cipher : bytes -> bytes -> R),
+    enc_structure_data EncCoseEncrypt (en_prot st) aad = Ok a -> enc pt a = Some ct ->
+    en_prot m = en_prot st -> en_ct m = Some ct ->
+    CoseEncrypt_to_value m = Ok v -> wire_ok v ->
+    to_vec CoseEncrypt_to_value m = Ok b -> from_slice CoseEncrypt_from_value b = Ok m' ->
+    Encrypt_decrypt m' aad cipher = Ok (cipher ct a).
+Proof.
+  intros st pt aad enc a ct m v b m' R cipher Ha Hs Hp Hct He W Hb Hd.
+  eapply encrypt_create_then_decrypt; eauto. eapply roundtrip_untagged; eauto.
+Qed.
+Corollary encrypt_roundtrip_tagged_bytes :
+  forall (st : encrypt) (pt aad : bytes) (enc : closure2) (a ct : bytes) (m : encrypt) (v : value) (b : bytes)
+         (m' : encrypt) (R : Type) (cipher : bytes -> bytes -> R),
+    enc_structure_data EncCoseEncrypt (en_prot st) aad = Ok a -> enc pt a = Some ct ->
+    en_prot m = en_prot st -> en_ct m = Some ct ->
+    CoseEncrypt_to_value m = Ok v -> wire_ok v ->
+    to_tagged_vec CoseEncrypt_to_value (tag_of "CoseEncrypt") m = Ok b ->
+    from_tagged_slice CoseEncrypt_from_value (tag_of "CoseEncrypt") b = Ok m' ->
+    Encrypt_decrypt m' aad cipher = Ok (cipher ct a).
+Proof.
+  intros st pt aad enc a ct m v b m' R cipher Ha Hs Hp Hct He W Hb Hd.
+  eapply encrypt_create_then_decrypt; eauto.
+  destruct (tag_generic "CoseEncrypt") as (A & B & C); [cbn [In]; tauto|].
+  eapply roundtrip_tagged; eauto.
+Qed.
+
+Lemma encrypt_create_ciphertext_step : forall st pt aad f,
+  encrypt_builder_step st (EO_create_ciphertext pt aad f) =
+  (do a <- enc_structure_data EncCoseEncrypt (en_prot st) aad; do ct <- call2 f pt a;
+   Ok (mkEncrypt (en_prot st) (en_unprot st) (Some ct) (en_recipients st))).
+Proof. reflexivity. Qed.
+Lemma encrypt_try_create_ciphertext_step : forall st pt aad f,
+  encrypt_builder_step st (EO_try_create_ciphertext pt aad f) =
+  (do a <- enc_structure_data EncCoseEncrypt (en_prot st) aad; do ct <- call2 f pt a;
+   Ok (mkEncrypt (en_prot st) (en_unprot st) (Some ct) (en_recipients st))).
+Proof. reflexivity. Qed.
+Lemma encrypt_failing_creator_yields_no_message : forall st pt aad f a,
+  enc_structure_data EncCoseEncrypt (en_prot st) aad = Ok a -> f pt a = None ->
+  encrypt_builder_step st (EO_try_create_ciphertext pt aad f) = Err EEncode.
+Proof. intros st pt aad f a H N. rewrite encrypt_try_create_ciphertext_step, H. cbn [bind]. now rewrite (call2_none _ _ _ N). Qed.
+
+(* ---------- COSE_recipient ---------- *)
+Lemma CoseRecipient_to_value_eq r :
+  CoseRecipient_to_value r =
+  (do p <- protected_cbor_bstr (r_prot r);
+   do u <- header_to_value (r_unprot r);
+   do tail <- (if isnil (r_recipients r) then Ok []
+               else do rs <- mapM CoseRecipient_to_value (r_recipients r); Ok [VArray rs]);
+   Ok (VArray ([p; u; opt_bytes_value (r_ct r)] ++ tail))).
+Proof. destruct r; reflexivity. Qed.
+
+Lemma recipient_encode_shape m v : CoseRecipient_to_value m = Ok v ->
+  exists p u tail, protected_cbor_bstr (r_prot m) = Ok p /\ (tail = [] \/ exists rs, tail = [VArray rs]) /\
+                   v = VArray ([p; u; opt_bytes_value (r_ct m)] ++ tail).
+Proof.
+  rewrite CoseRecipient_to_value_eq. intros H. bind_inv H. bind_inv H. bind_inv H. injection H as <-.
+  do 3 eexists. split; [reflexivity|]. split; [|reflexivity].
+  destruct (isnil (r_recipients m)).
+  - injection E1 as <-. now left.
+  - bind_inv E1. injection E1 as <-. right. eauto.
+Qed.
+
+Lemma recipient_decode_shape p u ctv tail m' : (tail = [] \/ exists rs, tail = [VArray rs]) ->
+  CoseRecipient_from_value (VArray ([p; u; ctv] ++ tail)) = Ok m' ->
+  protected_cbor_bstr (r_prot m') = Ok p /\ bytes_or_nil ctv = Ok (r_ct m').
+Proof.
+  intros [->|[rs ->]]; cbn [app CoseRecipient_from_value length]; rewrite arity_recipient;
+    cbn [Nat.eqb negb orb]; intros H; bind_inv H; bind_inv H; bind_inv H; bind_inv H; injection H as <-;
+    cbn [r_prot r_ct]; (split; [eapply protected_retained; eassumption|reflexivity]).
+Qed.
+
+Lemma recipient_roundtrip_fields m v m' :
+  CoseRecipient_to_value m = Ok v -> CoseRecipient_from_value v = Ok m' ->
+  protected_cbor_bstr (r_prot m') = protected_cbor_bstr (r_prot m) /\ r_ct m' = r_ct m.
+Proof.
+  intros He Hd. destruct (recipient_encode_shape _ _ He) as (p & u & tail & Hp & Ht & ->).
+  apply recipient_decode_shape in Hd as (Hp' & Hct); [|exact Ht].
+  rewrite bytes_or_nil_opt in Hct. repeat split; congruence.
+Qed.
+
+Lemma recipient_aad_ok m c aad a : recipient_aad m c aad = Ok a ->
+  is_recipient_context c = true /\ enc_structure_data c (r_prot m) aad = Ok a.
+Proof. unfold recipient_aad. destruct (is_recipient_context c); cbn [negb]; [auto|discriminate]. Qed.
+
+Theorem recipient_create_then_decrypt :
+  forall (st : recipient) (c : enc_context) (pt aad : bytes) (enc : closure2) (a ct : bytes) (m : recipient)
+         (v : value) (m' : recipient) (R : Type) (cipher : bytes -> bytes -> R),
+    is_recipient_context c = true ->
+    enc_structure_data c (r_prot st) aad = Ok a -> enc pt a = Some ct ->
+    r_prot m = r_prot st -> r_ct m = Some ct ->
+    CoseRecipient_to_value m = Ok v -> wire_ok v ->
+    CoseRecipient_from_value v = Ok m' ->
+    Recipient_decrypt m' c aad cipher = Ok (cipher ct a).
+Proof.
+  intros st c pt aad enc a ct m v m' R cipher Hc Ha _ Hp Hct He _ Hd.
+  destruct (recipient_roundtrip_fields _ _ _ He Hd) as (Ep & Ect).
+  unfold Recipient_decrypt. rewrite Ect, Hct, Hc. cbn [negb].
+  rewrite (enc_structure_data_ext _ (r_prot m') (r_prot st)) by (rewrite Ep, Hp; reflexivity).
+  rewrite Ha. reflexivity.
+Qed.
+
+Corollary recipient_roundtrip_bytes :
+  forall (st : recipient) (c : enc_context) (pt aad : bytes) (enc : closure2) (a ct : bytes) (m : recipient)
+         (v : value) (b : bytes) (m' : recipient) (R : Type) (cipher : bytes -> bytes -> R),
+    is_recipient_context c = true ->
+    enc_structure_data c (r_prot st) aad = Ok a -> enc pt a = Some ct ->
+    r_prot m = r_prot st -> r_ct m = Some ct ->
+    CoseRecipient_to_value m = Ok v -> wire_ok v ->
+    to_vec CoseRecipient_to_value m = Ok b -> from_slice CoseRecipient_from_value b = Ok m' ->
+    Recipient_decrypt m' c aad cipher = Ok (cipher ct a).
+Proof.
+  intros st c pt aad enc a ct m v b m' R cipher Hc Ha Hs Hp Hct He W Hb Hd.
+  eapply recipient_create_then_decrypt; eauto. eapply roundtrip_untagged; eauto.
+Qed.
+
+Lemma recipient_create_ciphertext_step : forall st c pt aad f,
+  recipient_builder_step st (RO_create_ciphertext c pt aad f) =
+  (do a <- recipient_aad st c aad; do ct <- call2 f pt a;
+   Ok (mkRecipient (r_prot st) (r_unprot st) (Some ct) (r_recipients st))).
+Proof. reflexivity. Qed.
+Lemma recipient_try_create_ciphertext_step : forall st c pt aad f,
+  recipient_builder_step st (RO_try_create_ciphertext c pt aad f) =
+  (do a <- recipient_aad st c aad; do ct <- call2 f pt a;
+   Ok (mkRecipient (r_prot st) (r_unprot st) (Some ct) (r_recipients st))).
+Proof. reflexivity. Qed.
+Lemma recipient_failing_creator_yields_no_message : forall st c pt aad f a,
+  is_recipient_context c = true -> enc_structure_data c (r_prot st) aad = Ok a -> f pt a = None ->
+  recipient_builder_step st (RO_try_create_ciphertext c pt aad f) = Err EEncode.
+Proof. intros st c pt aad f a Hc H N. rewrite recipient_try_create_ciphertext_step.
+  unfold recipient_aad. rewrite Hc. cbn [negb]. rewrite H. cbn [bind]. now rewrite (call2_none _ _ _ N). Qed.
+
+(* ---------- COSE_Sign: one signature among several ---------- *)
+Lemma mapM_nth {A B} (f : A -> res B) l : forall l', mapM f l = Ok l' ->
+  forall i a, nth_error l i = Some a -> exists b, nth_error l' i = Some b /\ f a = Ok b.
+Proof.
+  induction l as [|x l IH]; intros l' H i a Hn.
+  - destruct i; discriminate Hn.
+  - cbn [mapM] in H. destruct (f x) as [y| | |] eqn:Fx; cbn [bind] in H; try discriminate H.
+    destruct (mapM f l) as [ys| | |] eqn:Ml; cbn [bind] in H; try discriminate H.
+    injection H as <-. destruct i as [|i]; cbn [nth_error] in *.
+    + injection Hn as <-. eauto.
+    + eapply IH; eauto.
+Qed.
+
+Lemma mapM_length {A B} (f : A -> res B) l : forall l', mapM f l = Ok l' -> length l' = length l.
+Proof.
+  induction l as [|x l IH]; intros l' H; cbn [mapM] in H.
+  - injection H as <-. reflexivity.
+  - destruct (f x) as [y| | |]; cbn [bind] in H; try discriminate H.
+    destruct (mapM f l) as [ys| | |] eqn:Ml; cbn [bind] in H; try discriminate H.
+    injection H as <-. cbn [length]. f_equal. now apply IH.
+Qed.
+
+Lemma nth_error_last {A} (l : list A) x : nth_error (l ++ [x]) (length l) = Some x.
+Proof. induction l as [|y l IH]; cbn; auto. Qed.
+
+Lemma nth_res_of_error {A} (l : list A) : forall i x, nth_error l i = Some x -> nth_res l i = Ok x.
+Proof. induction l as [|y l IH]; intros [|i] x H; cbn in *; try discriminate; [congruence|auto]. Qed.
+
+Lemma map_err_ok {A} (r : res A) e a : map_err r e = Ok a -> r = Ok a.
+Proof. destruct r; cbn; intros H; try discriminate; exact H. Qed.
+
+Lemma signature_to_value_eq s :
+  signature_to_value s =
+  (do p <- protected_cbor_bstr (s_prot s); do u <- header_to_value (s_unprot s); Ok (VArray [p; u; VBytes (s_sig s)])).
+Proof. destruct s; reflexivity. Qed.
+
+Lemma signature_encode_shape s v : signature_to_value s = Ok v ->
+  exists p u, protected_cbor_bstr (s_prot s) = Ok p /\ v = VArray [p; u; VBytes (s_sig s)].
+Proof. rewrite signature_to_value_eq. intros H. bind_inv H. bind_inv H. injection H as <-. eauto. Qed.
+
+Lemma signature_decode_shape p u sgv s' :
+  CoseSignature_from_value (VArray [p; u; sgv]) = Ok s' ->
+  protected_cbor_bstr (s_prot s') = Ok p /\ try_as_bytes sgv = Ok (s_sig s').
+Proof.
+  unfold CoseSignature_from_value, signature_from_value, signature_from_value_with.
+  cbn [length]. rewrite arity_signature. cbn [Nat.eqb negb].
+  intros H. bind_inv H. bind_inv H. bind_inv H. injection H as <-.
+  cbn [s_prot s_sig]. split; [eapply protected_retained; eassumption|reflexivity].
+Qed.
+
+(* a nested signature keeps its protected byte string and its signature bytes *)
+Lemma signature_roundtrip_fields s v s' :
+  signature_to_value s = Ok v -> CoseSignature_from_value v = Ok s' ->
+  protected_cbor_bstr (s_prot s') = protected_cbor_bstr (s_prot s) /\ s_sig s' = s_sig s.
+Proof.
+  intros He Hd. destruct (signature_encode_shape _ _ He) as (p & u & Hp & ->).
+  apply signature_decode_shape in Hd as (Hp' & Hsg). cbn [try_as_bytes] in Hsg.
+  split; congruence.
+Qed.
+
+Lemma sign_encode_shape m v : CoseSign_to_value m = Ok v ->
+  exists p u ss, protected_cbor_bstr (sn_prot m) = Ok p /\ mapM signature_to_value (sn_sigs m) = Ok ss /\
+                 v = VArray [p; u; opt_bytes_value (sn_payload m); VArray ss].
+Proof. unfold CoseSign_to_value. intros H. bind_inv H. bind_inv H. bind_inv H. injection H as <-. eauto 6. Qed.
+
+Lemma sign_decode_shape p u plv ss m' :
+  CoseSign_from_value (VArray [p; u; plv; VArray ss]) = Ok m' ->
+  protected_cbor_bstr (sn_prot m') = Ok p /\ bytes_or_nil plv = Ok (sn_payload m') /\
+  mapM (fun s => map_err (CoseSignature_from_value s) EUnexpected) ss = Ok (sn_sigs m').
+Proof.
+  unfold CoseSign_from_value. cbn [try_as_array bind length]. rewrite arity_sign. cbn [Nat.eqb negb].
+  intros H. bind_inv H. bind_inv H. bind_inv H. bind_inv H. injection H as <-.
+  cbn [sn_prot sn_payload sn_sigs]. repeat split. eapply protected_retained; eassumption.
+Qed.
+
+(* the i-th decoded signature is the i-th stored one *)
+Lemma sign_roundtrip_fields m v m' :
+  CoseSign_to_value m = Ok v -> CoseSign_from_value v = Ok m' ->
+  protected_cbor_bstr (sn_prot m') = protected_cbor_bstr (sn_prot m) /\
+  sn_payload m' = sn_payload m /\
+  length (sn_sigs m') = length (sn_sigs m) /\
+  forall i s, nth_error (sn_sigs m) i = Some s ->
+    exists s', nth_error (sn_sigs m') i = Some s' /\
+               protected_cbor_bstr (s_prot s') = protected_cbor_bstr (s_prot s) /\ s_sig s' = s_sig s.
+Proof.
+  intros He Hd. destruct (sign_encode_shape _ _ He) as (p & u & ss & Hp & Hss & ->).
+  apply sign_decode_shape in Hd as (Hp' & Hpl & Hsigs).
+  rewrite bytes_or_nil_opt in Hpl.
+  split; [congruence|]. split; [congruence|]. split.
+  - rewrite (mapM_length _ _ _ Hsigs), (mapM_length _ _ _ Hss). reflexivity.
+  - intros i s Hn.
+    destruct (mapM_nth _ _ _ Hss i s Hn) as (sv & Hsv & Es).
+    destruct (mapM_nth _ _ _ Hsigs i sv Hsv) as (s' & Hs' & Ds). apply map_err_ok in Ds.
+    exists s'. split; [exact Hs'|]. eapply signature_roundtrip_fields; eassumption.
+Qed.
+
+Theorem sign_sign_then_verify :
+  forall (st : sign) (s : signature) (aad : bytes) (signer : closure1) (tbs sg : bytes) (m : sign) (v : value)
+         (m' : sign) (R : Type) (verifier : bytes -> bytes -> R),
+    Sign_tbs_data st aad s = Ok tbs -> signer tbs = Some sg ->
+    sn_prot m = sn_prot st -> sn_payload m = sn_payload st ->
+    sn_sigs m = sn_sigs st ++ [mkSignature (s_prot s) (s_unprot s) sg] ->
+    CoseSign_to_value m = Ok v -> wire_ok v ->
+    CoseSign_from_value v = Ok m' ->
+    Sign_verify_signature m' (length (sn_sigs st)) aad verifier = Ok (verifier sg tbs).
+Proof.
+  intros st s aad signer tbs sg m v m' R verifier Htbs _ Hp Hpl Hsigs He _ Hd.
+  destruct (sign_roundtrip_fields _ _ _ He Hd) as (Ep & Epl & _ & Hnth).
+  destruct (Hnth (length (sn_sigs st)) (mkSignature (s_prot s) (s_unprot s) sg)) as (s' & Hs' & Esp & Esg).
+  { rewrite Hsigs. apply nth_error_last. }
+  cbn [s_prot s_sig] in Esp, Esg.
+  unfold Sign_verify_signature. rewrite (nth_res_of_error _ _ _ Hs'). cbn [bind].
+  assert (X : Sign_tbs_data m' aad s' = Ok tbs).
+  { rewrite <- Htbs. unfold Sign_tbs_data. rewrite Epl, Hpl.
+    apply sig_structure_data_ext; [rewrite Ep, Hp; reflexivity|exact Esp]. }
+  rewrite X. cbn [bind]. rewrite Esg. reflexivity.
+Qed.
+
+(* the signatures that were already there keep their index and verify as before *)
+Theorem sign_other_signatures_unchanged :
+  forall (m : sign) (v : value) (m' : sign) (i : nat) (s : signature) (aad : bytes)
+         (R : Type) (verifier : bytes -> bytes -> R),
+    CoseSign_to_value m = Ok v -> CoseSign_from_value v = Ok m' ->
+    nth_error (sn_sigs m) i = Some s ->
+    Sign_verify_signature m' i aad verifier = Sign_verify_signature m i aad verifier.
+Proof.
+  intros m v m' i s aad R verifier He Hd Hn.
+  destruct (sign_roundtrip_fields _ _ _ He Hd) as (Ep & Epl & _ & Hnth).
+  destruct (Hnth i s Hn) as (s' & Hs' & Esp & Esg).
+  unfold Sign_verify_signature. rewrite (nth_res_of_error _ _ _ Hs'), (nth_res_of_error _ _ _ Hn). cbn [bind].
+  unfold Sign_tbs_data. rewrite Epl, Esg.
+  rewrite (sig_structure_data_ext _ (sn_prot m') (sn_prot m) (Some (s_prot s')) (Some (s_prot s))) by assumption.
+  reflexivity.
+Qed.
+
+Corollary sign_roundtrip_bytes :
+  forall (st : sign) (s : signature) (aad : bytes) (signer : closure1) (tbs sg : bytes) (m : sign) (v : value)
+         (b : bytes) (m' : sign) (R : Type) (verifier : bytes -> bytes -> R),
+    Sign_tbs_data st aad s = Ok tbs -> signer tbs = Some sg ->
+    sn_prot m = sn_prot st -> sn_payload m = sn_payload st ->
+    sn_sigs m = sn_sigs st ++ [mkSignature (s_prot s) (s_unprot s) sg] ->
+    CoseSign_to_value m = Ok v -> wire_ok v ->
+    to_vec CoseSign_to_value m = Ok b -> from_slice CoseSign_from_value b = Ok m' ->
+    Sign_verify_signature m' (length (sn_sigs st)) aad verifier = Ok (verifier sg tbs).
+Proof.
+  intros st s aad signer tbs sg m v b m' R verifier Htbs Hs Hp Hpl Hsg He W Hb Hd.
+  eapply sign_sign_then_verify; eauto. eapply roundtrip_untagged; eauto.
+Qed.
+Corollary sign_roundtrip_tagged_bytes :
+  forall (st : sign) (s : signature) (aad : bytes) (signer : closure1) (tbs sg : bytes) (m : sign) (v : value)
+         (b : bytes) (m' : sign) (R : Type) (verifier : bytes -> bytes -> R),
+    Sign_tbs_data st aad s = Ok tbs -> signer tbs = Some sg ->
+    sn_prot m = sn_prot st -> sn_payload m = sn_payload st ->
+    sn_sigs m = sn_sigs st ++ [mkSignature (s_prot s) (s_unprot s) sg] ->
+    CoseSign_to_value m = Ok v -> wire_ok v ->
+    to_tagged_vec CoseSign_to_value (tag_of "CoseSign") m = Ok b ->
+    from_tagged_slice CoseSign_from_value (tag_of "CoseSign") b = Ok m' ->
+    Sign_verify_signature m' (length (sn_sigs st)) aad verifier = Ok (verifier sg tbs).
+Proof.
+  intros st s aad signer tbs sg m v b m' R verifier Htbs Hs Hp Hpl Hsg He W Hb Hd.
+  eapply sign_sign_then_verify; eauto.
+  destruct (tag_generic "CoseSign") as (A & B & C); [cbn [In]; tauto|].
+  eapply roundtrip_tagged; eauto.
+Qed.
+
+Lemma sign_add_created_signature_step : forall st s aad f,
+  sign_builder_step st (SN_add_created_signature s aad f) =
+  (do tbs <- Sign_tbs_data st aad s; do sg <- call1 f tbs;
+   Ok (mkSign (sn_prot st) (sn_unprot st) (sn_payload st) (sn_sigs st ++ [mkSignature (s_prot s) (s_unprot s) sg]))).
+Proof. reflexivity. Qed.
+Lemma sign_try_add_created_signature_step : forall st s aad f,
+  sign_builder_step st (SN_try_add_created_signature s aad f) =
+  (do tbs <- Sign_tbs_data st aad s; do sg <- call1 f tbs;
+   Ok (mkSign (sn_prot st) (sn_unprot st) (sn_payload st) (sn_sigs st ++ [mkSignature (s_prot s) (s_unprot s) sg]))).
+Proof. reflexivity. Qed.
+Lemma sign_failing_creator_yields_no_message : forall st s aad f tbs,
+  Sign_tbs_data st aad s = Ok tbs -> f tbs = None ->
+  sign_builder_step st (SN_try_add_created_signature s aad f) = Err EEncode.
+Proof. intros st s aad f tbs H N. rewrite sign_try_add_created_signature_step, H. cbn [bind]. now rewrite (call1_none _ _ N). Qed.
+
+(* ====================================================================== *)
+(* 3. Sensitivity: any change changes the bytes handed over               *)
+(* ====================================================================== *)
+
+Theorem tbs_sensitive : forall c b s aad pl c' b' s' aad' pl',
+  short b -> (forall x, s = Some x -> short x) -> short aad -> short pl ->
+  short b' -> (forall x, s' = Some x -> short x) -> short aad' -> short pl' ->
+  (c, b, s, aad, pl) <> (c', b', s', aad', pl') ->
+  sig_structure c b s aad pl <> sig_structure c' b' s' aad' pl'.
+Proof.
+  intros c b s aad pl c' b' s' aad' pl' H1 H2 H3 H4 H5 H6 H7 H8 N E. apply N.
+  destruct (sig_structure_injective _ _ _ _ _ _ _ _ _ _ H1 H2 H3 H4 H5 H6 H7 H8 E) as (-> & -> & -> & -> & ->).
+  reflexivity.
+Qed.
+
+Theorem tbm_sensitive : forall c p aad pl c' p' aad' pl',
+  short p -> short aad -> short pl -> short p' -> short aad' -> short pl' ->
+  (c, p, aad, pl) <> (c', p', aad', pl') ->
+  mac_structure c p aad pl <> mac_structure c' p' aad' pl'.
+Proof.
+  intros c p aad pl c' p' aad' pl' H1 H2 H3 H4 H5 H6 N E. apply N.
+  destruct (mac_structure_injective _ _ _ _ _ _ _ _ H1 H2 H3 H4 H5 H6 E) as (-> & -> & -> & ->).
+  reflexivity.
+Qed.
+
+Theorem aad_sensitive : forall c p aad c' p' aad',
+  short p -> short aad -> short p' -> short aad' ->
+  (c, p, aad) <> (c', p', aad') ->
+  enc_structure c p aad <> enc_structure c' p' aad'.
+Proof.
+  intros c p aad c' p' aad' H1 H2 H3 H4 N E. apply N.
+  destruct (enc_structure_injective _ _ _ _ _ _ H1 H2 H3 H4 E) as (-> & -> & ->).
+  reflexivity.
+Qed.
+
+(* the same at the level of the model's helper functions: what each slot contributes *)
+Lemma sig_structure_data_ok c body sign aad pl t : sig_structure_data c body sign aad pl = Ok t ->
+  exists b s, protected_bytes body = Ok b /\ opt_protected_bytes sign = Ok s /\
+              t = sig_structure (rfc_sig_ctx c) b s aad pl.
+Proof.
+  rewrite sig_structure_data_spec. destruct (protected_bytes body) as [b| | |]; try discriminate.
+  destruct (opt_protected_bytes sign) as [s| | |]; try discriminate. intros [= <-]. eauto.
+Qed.
+Lemma mac_structure_data_ok c p aad pl t : mac_structure_data c p aad pl = Ok t ->
+  exists b, protected_bytes p = Ok b /\ t = mac_structure (rfc_mac_ctx c) b aad pl.
+Proof. rewrite mac_structure_data_spec. destruct (protected_bytes p) as [b| | |]; try discriminate. intros [= <-]. eauto. Qed.
+Lemma enc_structure_data_ok c p aad t : enc_structure_data c p aad = Ok t ->
+  exists b, protected_bytes p = Ok b /\ t = enc_structure (rfc_enc_ctx c) b aad.
+Proof. rewrite enc_structure_data_spec. destruct (protected_bytes p) as [b| | |]; try discriminate. intros [= <-]. eauto. Qed.
+
+Theorem sign1_tbs_sensitive : forall m aad m' aad' b b' t t',
+  protected_bytes (s1_prot m) = Ok b -> protected_bytes (s1_prot m') = Ok b' ->
+  short b -> short aad -> short (unwrap_or_empty (s1_payload m)) ->
+  short b' -> short aad' -> short (unwrap_or_empty (s1_payload m')) ->
+  Sign1_tbs_data m aad = Ok t -> Sign1_tbs_data m' aad' = Ok t' ->
+  (b, aad, unwrap_or_empty (s1_payload m)) <> (b', aad', unwrap_or_empty (s1_payload m')) ->
+  t <> t'.
+Proof.
+  intros m aad m' aad' b b' t t' Hb Hb' S1 S2 S3 S4 S5 S6 Ht Ht' N.
+  unfold Sign1_tbs_data in Ht, Ht'.
+  apply sig_structure_data_ok in Ht as (x & s & Hx & Hs & ->). apply sig_structure_data_ok in Ht' as (x' & s' & Hx' & Hs' & ->).
+  cbn [opt_protected_bytes] in Hs, Hs'. injection Hs as <-. injection Hs' as <-.
+  rewrite Hb in Hx. injection Hx as <-. rewrite Hb' in Hx'. injection Hx' as <-.
+  apply tbs_sensitive; try assumption; try (intros ? [=]). intros E. apply N. congruence.
+Qed.
+
+Theorem sign_tbs_sensitive : forall m aad s m' aad' s' b b' sb sb' t t',
+  protected_bytes (sn_prot m) = Ok b -> protected_bytes (sn_prot m') = Ok b' ->
+  protected_bytes (s_prot s) = Ok sb -> protected_bytes (s_prot s') = Ok sb' ->
+  short b -> short sb -> short aad -> short (unwrap_or_empty (sn_payload m)) ->
+  short b' -> short sb' -> short aad' -> short (unwrap_or_empty (sn_payload m')) ->
+  Sign_tbs_data m aad s = Ok t -> Sign_tbs_data m' aad' s' = Ok t' ->
+  (b, sb, aad, unwrap_or_empty (sn_payload m)) <> (b', sb', aad', unwrap_or_empty (sn_payload m')) ->
+  t <> t'.
+Proof.
+  intros m aad s m' aad' s' b b' sb sb' t t' Hb Hb' Hsb Hsb' S1 S2 S3 S4 S5 S6 S7 S8 Ht Ht' N.
+  unfold Sign_tbs_data in Ht, Ht'.
+  apply sig_structure_data_ok in Ht as (x & o & Hx & Hs & ->). apply sig_structure_data_ok in Ht' as (x' & o' & Hx' & Hs' & ->).
+  cbn [opt_protected_bytes] in Hs, Hs'. rewrite Hsb in Hs. rewrite Hsb' in Hs'. cbn [bind] in Hs, Hs'.
+  injection Hs as <-. injection Hs' as <-.
+  rewrite Hb in Hx. injection Hx as <-. rewrite Hb' in Hx'. injection Hx' as <-.
+  apply tbs_sensitive; try assumption; try (intros ? [= <-]; assumption). intros E. apply N. congruence.
+Qed.
+
+Theorem mac0_tbm_sensitive : forall m aad m' aad' b b' pl pl' t t',
+  protected_bytes (m0_prot m) = Ok b -> protected_bytes (m0_prot m') = Ok b' ->
+  m0_payload m = Some pl -> m0_payload m' = Some pl' ->
+  short b -> short aad -> short pl -> short b' -> short aad' -> short pl' ->
+  Mac0_tbm m aad = Ok t -> Mac0_tbm m' aad' = Ok t' ->
+  (b, aad, pl) <> (b', aad', pl') -> t <> t'.
+Proof.
+  intros m aad m' aad' b b' pl pl' t t' Hb Hb' Hp Hp' S1 S2 S3 S4 S5 S6 Ht Ht' N.
+  unfold Mac0_tbm in Ht, Ht'. rewrite Hp in Ht. rewrite Hp' in Ht'.
+  apply mac_structure_data_ok in Ht as (x & Hx & ->). apply mac_structure_data_ok in Ht' as (x' & Hx' & ->).
+  rewrite Hb in Hx. injection Hx as <-. rewrite Hb' in Hx'. injection Hx' as <-.
+  apply tbm_sensitive; try assumption. intros E. apply N. congruence.
+Qed.
+
+Theorem mac_tbm_sensitive : forall m aad m' aad' b b' pl pl' t t',
+  protected_bytes (mc_prot m) = Ok b -> protected_bytes (mc_prot m') = Ok b' ->
+  mc_payload m = Some pl -> mc_payload m' = Some pl' ->
+  short b -> short aad -> short pl -> short b' -> short aad' -> short pl' ->
+  Mac_tbm m aad = Ok t -> Mac_tbm m' aad' = Ok t' ->
+  (b, aad, pl) <> (b', aad', pl') -> t <> t'.
+Proof.
+  intros m aad m' aad' b b' pl pl' t t' Hb Hb' Hp Hp' S1 S2 S3 S4 S5 S6 Ht Ht' N.
+  unfold Mac_tbm in Ht, Ht'. rewrite Hp in Ht. rewrite Hp' in Ht'.
+  apply mac_structure_data_ok in Ht as (x & Hx & ->). apply mac_structure_data_ok in Ht' as (x' & Hx' & ->).
+  rewrite Hb in Hx. injection Hx as <-. rewrite Hb' in Hx'. injection Hx' as <-.
+  apply tbm_sensitive; try assumption. intros E. apply N. congruence.
+Qed.
+
+Theorem enc_aad_sensitive : forall c p aad p' aad' b b' t t',
+  protected_bytes p = Ok b -> protected_bytes p' = Ok b' ->
+  short b -> short aad -> short b' -> short aad' ->
+  enc_structure_data c p aad = Ok t -> enc_structure_data c p' aad' = Ok t' ->
+  (b, aad) <> (b', aad') -> t <> t'.
+Proof.
+  intros c p aad p' aad' b b' t t' Hb Hb' S1 S2 S3 S4 Ht Ht' N.
+  apply enc_structure_data_ok in Ht as (x & Hx & ->). apply enc_structure_data_ok in Ht' as (x' & Hx' & ->).
+  rewrite Hb in Hx. injection Hx as <-. rewrite Hb' in Hx'. injection Hx' as <-.
+  apply aad_sensitive; try assumption. intros E. apply N. congruence.
+Qed.
+
+Print Assumptions read_back.
+Print Assumptions read_back_tagged.
+Print Assumptions sign1_sign_then_verify.
+Print Assumptions sign1_detached_sign_then_verify.
+Print Assumptions sign1_roundtrip_bytes.
+Print Assumptions sign1_roundtrip_tagged_bytes.
+Print Assumptions sign1_builder_sign_then_verify.
+Print Assumptions failing_creator_yields_no_message.
+Print Assumptions mac0_create_then_verify.
+Print Assumptions mac0_roundtrip_tagged_bytes.
+Print Assumptions encrypt0_create_then_decrypt.
+Print Assumptions encrypt0_roundtrip_tagged_bytes.
+Print Assumptions mac_create_then_verify.
+Print Assumptions mac_roundtrip_tagged_bytes.
+Print Assumptions encrypt_create_then_decrypt.
+Print Assumptions encrypt_roundtrip_tagged_bytes.
+Print Assumptions recipient_create_then_decrypt.
+Print Assumptions recipient_roundtrip_bytes.
+Print Assumptions sign_sign_then_verify.
+Print Assumptions sign_other_signatures_unchanged.
+Print Assumptions sign_roundtrip_tagged_bytes.
+Print Assumptions tbs_sensitive.
+Print Assumptions tbm_sensitive.
+Print Assumptions aad_sensitive.
+Print Assumptions sign1_tbs_sensitive.
+Print Assumptions sign_tbs_sensitive.
+Print Assumptions mac0_tbm_sensitive.
+Print Assumptions mac_tbm_sensitive.
+Print Assumptions enc_aad_sensitive.
